@@ -84,6 +84,12 @@ func HarnessC17Forward() {
 		vrt.Assert(len(outbox.calls) == 1 && outbox.calls[0].topic == defaultForwarderTopic && len(outbox.calls[0].msgs) == 1, "one envelope goes to the forwarder topic")
 		consumed = outbox.calls[0].msgs[0]
 		vrt.Assert(consumed.Context().Value(ctxKey{}) == "v", "the envelope carries the message context")
+		if vrt.Bool("another.publish.before.forwarding") {
+			// the outbox keeps what it was given (like a persistent or asynchronous Pub/Sub): a later Publish through
+			// the same forwarder publisher must not disturb the envelope published before
+			vrt.Assert(p.Publish("e", message.NewMessage("o", nil)) == nil, "second publish")
+			vrt.Assert(len(outbox.calls) == 2, "second envelope published")
+		}
 	case 1:
 		consumed = message.NewMessage("x", message.Payload(vrt.Bytes("garbage", 2)))
 	case 2:
